@@ -84,7 +84,7 @@ def prop_meta(prop, env):
     """LEVEL/RULE/ASSUMPTIONS of the property module, read in a child (keeps strax out of the parent)."""
     code = ("import json,logging,warnings;logging.disable(50);warnings.filterwarnings('ignore');"
             "import importlib;m=importlib.import_module('vf.props.%s');"
-            "print('\\n@@META@@'+json.dumps(dict(level=m.LEVEL,rule=m.RULE,assumptions=list(m.ASSUMPTIONS),"
+            "print('\\n@@META@@'+json.dumps(dict(level=m.LEVEL,rule=m.RULE,assumptions=list(m.ASSUMPTIONS),env=getattr(m,'ENV',{}),"
             "subs=[dict(name=s.name,enum=s.enumerate is not None,exh=list(s.exhaustive_in),req=list(s.required_classes)) for s in m.SUBCHECKS])))"
             % prop.lower())
     r = subprocess.run([sys.executable, "-c", code], env=env, cwd=HERE, capture_output=True, text=True)
@@ -141,6 +141,9 @@ def _main(a, prop, seed, env, run_dir, t0):
     known_lines = []
     notes = []
 
+    meta = prop_meta(prop, env)
+    env.update({k: str(v) for k, v in meta.get("env", {}).items()})  # e.g. NUMBA_DISABLE_JIT for graph-level checks
+
     # ---- single replay -------------------------------------------------------------------------
     if a.replay:
         out = os.path.join(run_dir, "replay.json")
@@ -158,7 +161,6 @@ def _main(a, prop, seed, env, run_dir, t0):
         print("replay passes")
         return 0
 
-    meta = prop_meta(prop, env)
 
     # ---- replay tier: committed regression / known / fixed cases (also warms the numba cache) ---
     files = sorted(glob.glob(os.path.join(HERE, "replay", f"{prop}-*.json")) +
